@@ -102,6 +102,15 @@ pub fn cases(tier: Tier) -> Vec<Case> {
     for (n, s) in rnd {
         v.push(Case { id: format!("rnd/{n}"), feature: format!("random/{n}"), source: Some(s.to_string()), corpus_json: None, flows: false });
     }
+    // self-seeding programs, played without the forced story seed
+    let selfseed: &[(&str, &str)] = &[
+        ("loop-then-choice", "VAR i = 0\n~ SEED_RANDOM(4242)\nFirst {RANDOM(1, 1000000)}.\n-> l\n=== l ===\n~ i = i + 1\nRoll {RANDOM(1, 6)} {~a|b|c|d}.\n{i < 3: -> l}\n* [more]\n    ~ i = 0\n    -> l\n* [stop] -> END\n"),
+        ("glue", "~ SEED_RANDOM(7)\nLine one <>\n glued {RANDOM(1, 100)}.\nThen {RANDOM(1, 100)} {~x|y|z}.\n* [again]\n    Once more {RANDOM(1, 100)} {~x|y|z}.\n- Done {RANDOM(1, 100)}.\n-> END\n"),
+        ("list-random", "LIST colours = (red), (green), (blue), (purple)\n~ SEED_RANDOM(99)\nPick {LIST_RANDOM(colours)}.\n* [pick again]\n    Pick {LIST_RANDOM(colours)} and {LIST_RANDOM(colours)}.\n- {shuffle:\n    - one\n    - two\n    - three\n}\n-> END\n"),
+    ];
+    for (n, s) in selfseed {
+        v.push(Case { id: format!("selfseed/{n}"), feature: "self-seeded, runtime-drawn initial seed".into(), source: Some(s.to_string()), corpus_json: None, flows: false });
+    }
     // base pool (also with flows) and segment family
     for (n, s) in pool::base_sources() {
         v.push(Case { id: format!("base/{n}"), feature: "base-pool".into(), source: Some(s.to_string()), corpus_json: None, flows: false });
@@ -149,13 +158,21 @@ pub fn transcript(c: &Case) -> (String, String) {
         },
         _ => return ("empty".into(), String::new()),
     };
-    let setup = Setup { bind_externals: Some(true), allow_fallbacks: true, handler: false, observers: vec![], seed: None };
+    // programs that seed themselves (SEED_RANDOM as their first statement) are played WITHOUT the
+    // forced story seed: the seed the runtime draws then comes from the entropy under test, and
+    // must stop mattering as soon as the story has seeded itself (observed from the first
+    // continue on)
+    let selfseed = c.id.starts_with("selfseed/");
+    let setup = Setup { bind_externals: Some(true), allow_fallbacks: true, handler: false, observers: vec![], seed: if selfseed { Some(crate::inst::NO_FORCED_SEED) } else { None } };
     let mut st = Stats::default();
     let flows = c.flows;
     let fsig = sigma_hist_flows(&prog);
     let sig = |o: &Value, h: &[Op]| if flows { fsig(o, h) } else { sigma_play(o) };
     let mut t = String::new();
     hx::explore(&prog, &setup, if flows { 5 } else { 7 }, &sig, true, &mut st, &mut |h, rs, o, _i, _s| {
+        if selfseed && h.is_empty() {
+            return true;
+        }
         t.push_str(&format!("{:?}|{:?}|{};\n", h.last(), rs.last(), o));
         true
     });
